@@ -425,3 +425,189 @@ E('C16', 'veto-nested', BLK, """            elif not retval:
                     return False
 """)
 E('C16', 'delta-le', FIL, "abs(self._last - value) >= self._delta", "self._delta <= abs(value - self._last)")
+
+# ----------------------------------------------------------------------------- C11
+V('C11', 'release-not-finally', BLK, """            return retval
+        finally:
+            self._event_active = False
+""", """            self._event_active = False
+            return retval
+        finally:
+            pass
+""", 'R11.1')
+V('C11', 'test-inside-try', BLK, """        if self._event_active:
+            raise EdzedCircuitError(f"{self}: Forbidden recursive event() call")
+        self._event_active = True
+        try:
+""", """        try:
+            if self._event_active:
+                raise EdzedCircuitError(f"{self}: Forbidden recursive event() call")
+            self._event_active = True
+""", 'R11.2')
+V('C11', 'early-return-after-acquire', BLK, """        self._event_active = True
+        try:
+            while isinstance(etype, EventCond):""", """        self._event_active = True
+        if etype == 'noop':
+            return None
+        try:
+            while isinstance(etype, EventCond):""", 'R11.1')
+V('C11', 'exit-writes-false', BLK, "            self._block._event_active = self._event_saved\n", "            self._block._event_active = False\n", 'R11.3')
+V('C11', 'exit-writes-true', BLK, "            self._block._event_active = self._event_saved\n", "            self._block._event_active = True\n", 'R11.3')
+V('C11', 'new-lift-site', FSM, "            self._send_events('on_enter')\n            return True\n", "            with self._enable_event:\n                self._send_events('on_enter')\n            return True\n", 'R11.3')
+V('C11', 'exit-cb-lifted', FSM, """                assert self._state is not block.UNDEF   # because is_initialized
+                self._run_cb('exit', self._state)
+""", """                assert self._state is not block.UNDEF   # because is_initialized
+                with self._enable_event:
+                    self._run_cb('exit', self._state)
+""", 'R11.3')
+V('C11', 'foreign-handler-call', S1, "        self._repeated_event.send(self, **data, repeat=0)\n", "        self._repeated_event.dest._event_put(**data, repeat=0)\n", 'R11.5')
+V('C11', 'fsm-flag-not-finally', FSM, """            self._send_events('on_enter')
+            return True
+        finally:
+            self._fsm_event_active = False
+""", """            self._send_events('on_enter')
+            self._fsm_event_active = False
+            return True
+        finally:
+            pass
+""", 'R11.4')
+V('C11', 'slot-overwritten', FSM, """            if self._next_event is not None:
+                raise EdzedCircuitError(
+                    "Forbidden event multiplication; "
+                    + f"Two events ({self._next_event[0]} and {etype}) were generated "
+                    + "while handling a single event")
+            self._next_event = (etype, data, newstate)""", """            self._next_event = (etype, data, newstate)""", 'R11.4')
+V('C11', 'unknown-event-aborts', BLK, """            except EdzedUnknownEvent:
+                raise
+            except Exception as err:""", """            except Exception as err:""", 'R11.6')
+V('C11', 'guard-skipped-for-ext', BLK, """        if self._event_active:
+            raise EdzedCircuitError(f"{self}: Forbidden recursive event() call")
+""", """        if self._event_active and not str(data.get('source', '')).startswith('_ext_'):
+            raise EdzedCircuitError(f"{self}: Forbidden recursive event() call")
+""", 'R11.2')
+V('C11', 'enter-no-save', BLK, """            self._event_saved = block._event_active
+            block._event_active = False
+            return block""", """            block._event_active = False
+            self._event_saved = block._event_active
+            return block""", 'R11.3')
+E('C11', 'ne-test', BLK, """        if self._event_active:
+            raise EdzedCircuitError(f"{self}: Forbidden recursive event() call")
+        self._event_active = True
+""", """        if not self._event_active:
+            self._event_active = True
+        else:
+            raise EdzedCircuitError(f"{self}: Forbidden recursive event() call")
+""")
+E('C11', 'exit-try-finally', BLK, "            self._block._event_active = self._event_saved\n", "            saved = self._event_saved\n            self._block._event_active = saved\n", note='alias local: must stay silent')
+
+# ----------------------------------------------------------------------------- C09
+V('C09', 'handler-overwrites', SIM, """        except (Exception, asyncio.CancelledError) as err:
+            if self._error is None:
+                self._error = err
+""", """        except (Exception, asyncio.CancelledError) as err:
+            self._error = err
+""", 'R09.1')
+VM('C09', 'raise-caught-not-recorded', [(SIM, "        started_blocks = set()\n        start_ok = False\n", "        started_blocks = set()\n        start_ok = False\n        last_err = None\n"),
+  (SIM, "        except (Exception, asyncio.CancelledError) as err:\n            if self._error is None:\n                self._error = err\n", "        except (Exception, asyncio.CancelledError) as err:\n            last_err = err\n            if self._error is None:\n                self._error = err\n"),
+  (SIM, "        assert self._error is not None\n        raise self._error\n\n    def abort(", "        assert self._error is not None\n        raise last_err or self._error\n\n    def abort(")], 'R09.2')
+V('C09', 'abort-replaces', SIM, """        if self._error is not None:
+            if (exc != self._error
+                    and exc != self._error.__cause__
+                    and not isinstance(exc, asyncio.CancelledError)):
+                _logger.warning("ignoring subsequent abort(%r)", exc)
+            return
+""", """        if self._error is not None and isinstance(exc, asyncio.CancelledError):
+            return
+""", 'R09.1')
+V('C09', 'cancel-before-record', SIM, """        self._error = exc
+        if self._simtask is not None and not self._simtask.done():
+            self._simtask.cancel()
+""", """        if self._simtask is not None and not self._simtask.done():
+            self._simtask.cancel()
+            return
+        self._error = exc
+""", 'R09.1')
+V('C09', 'event-no-abort', BLK, "                    self.circuit.abort(sim_err)\n", "                    self.log_error('%s', sim_err)\n", 'R09.3')
+V('C09', 'event-abort-extra-cond', BLK, "                if err.__traceback__.tb_next is not None:\n", "                if err.__traceback__.tb_next is not None and not isinstance(err, ValueError):\n", 'R09.3')
+V('C09', 'monitor-swallows', ADD, """        except Exception as err:
+            add_note(err, f"block {self}, coroutine: {coro.__qualname__}")
+            self.circuit.abort(err)
+            raise
+        return retval""", """        except Exception as err:
+            add_note(err, f"block {self}, coroutine: {coro.__qualname__}")
+            if not is_service:
+                raise
+            self.circuit.abort(err)
+            raise
+        return retval""", 'R09.3')
+V('C09', 'simulate-logs-continues', SIM, """            except Exception as err:
+                # add the block name
+                add_note(err, f"block: {cblk}, output evaluation error")
+                raise
+""", """            except Exception as err:
+                # add the block name
+                add_note(err, f"block: {cblk}, output evaluation error")
+                _logger.error("evaluation error ignored: %s", err)
+                continue
+""", 'R09.3')
+V('C09', 'run-keeps-last', SIM, "            if run_error is None:\n                run_error = err\n", "            run_error = err\n", 'R09.2')
+V('C09', 'shutdown-swallows-all', SIM, """        try:
+            await self._simtask
+        except asyncio.CancelledError:
+            pass
+
+
+class _TerminatingSignal""", """        try:
+            await self._simtask
+        except (Exception, asyncio.CancelledError):
+            pass
+
+
+class _TerminatingSignal""", 'R09.2')
+V('C09', 'new-swallowing-handler', S2, """    def cond_put(self) -> bool:
+        data = fsm.fsm_event_data.get()
+        value = data['value']
+""", """    def cond_put(self) -> bool:
+        try:
+            data = fsm.fsm_event_data.get()
+        except Exception:
+            return False
+        value = data['value']
+""", 'R09.4')
+V('C09', 'service-return-ok', ADD, """            if is_service:
+                raise EdzedCircuitError("Unexpected task termination")
+""", "", 'R09.3')
+V('C09', 'maintask-unmonitored', ADD, """        self._mtask = self._create_monitored_task(
+            self._maintask(), is_service=True, name=f"edzed: main task for block {self.name!r}")""",
+  """        self._mtask = asyncio.create_task(
+            self._maintask(), name=f"edzed: main task for block {self.name!r}")""", 'R09.3')
+V('C09', 'ready-ignores-error', SIM, "return self._simtask is not None and self._error is None", "return self._simtask is not None and not self._simtask.done()", 'R09.1')
+V('C09', 'ctrl-abort-logs-only', S1, """        if isinstance(error, Exception):
+            exc.__cause__ = error
+        self.circuit.abort(exc)""", """        if isinstance(error, Exception):
+            exc.__cause__ = error
+            self.circuit.abort(exc)""", 'R09.3')
+V('C09', 'stop-error-escalates', SIM, """                try:
+                    blk.stop()
+                except Exception:
+                    _logger.error("%s: ignored error in stop()", blk, exc_info=True)
+
+            await asyncio.sleep(0)""", """                try:
+                    blk.stop()
+                except Exception as err:
+                    _logger.error("%s: ignored error in stop()", blk, exc_info=True)
+                    self.abort(err)
+
+            await asyncio.sleep(0)""", 'R09.4')
+E('C09', 'nested-guard', SIM, """        if self._error is not None:
+            if (exc != self._error""", """        if not self._error is None:
+            if (exc != self._error""")
+E('C09', 'handler-early-style', SIM, """        except (Exception, asyncio.CancelledError) as err:
+            if self._error is None:
+                self._error = err
+""", """        except (Exception, asyncio.CancelledError) as err:
+            if self._error is not None:
+                pass
+            else:
+                self._error = err
+""")
